@@ -463,9 +463,12 @@ CACHE_PREFIXES = [
     # look-alikes: no leading dot, other letter, marker inside the query
     "https://ampproject.org/c/", "https://a-com.cdn.ampproject.org/x/", "https://xbc.marfeel.com/",
     "https://a.com/?x=.ampproject.org/c/s/", "https://a.com/?u=https%3A%2F%2Fa-com.cdn.ampproject.org%2Fc%2Fs%2F",
+    "https://a-com.cdn.ampproject.org/c/\u017f/", "https://www.youtube.com/red\u0131rect?q=",
     "http://bc-marfeel.com/", "http://bcxmarfeel.com:8080/", "https://example.com/bc/marfeel.com/", "http://bc.marfeelcacheXcom/amp/", "http://cdn-ampproject.org/c/s/",
 ]
 CACHE_TAILS = ["", "b.c/x", "b.c/x?y=1#f", "b.c/x.amp?test#test", "/", "//", "s/", "s/b.c", "b.c", "?", "#",
+               # nothing cached: only a fragment, a query, blanks or control characters follow the marker
+               "#frag", "?a=1", " ", " \n", "\x7f", "\u017f/b.c/y",
                "b.c/?u=http%3A%2F%2Fd.e", "b.c/?u=/x", "b.c/?u=//", "b.c?u=//%3Fx", "u=//", "?u=//", "&u=/x",
                "b.c/x?q=http://d.e", "www.youtube.com/redirect?q=d.e%2Fx"]
 
